@@ -332,10 +332,11 @@ pub fn probe_removal<K: KeyT, V: ValT>(
         }
         // extract_if: extract exactly `mask`, dropped after `cut` yielded items (cut = all, and each early point)
         let extracted_total = (0..n).filter(|p| mask >> p & 1 == 1).count();
-        for cut in 0..=extracted_total {
+        for (cut, fin) in (0..=extracted_total).flat_map(|c| [(c, 0u8), (c, 1u8)]) {
             if cut < extracted_total && n > max_len_for_subsets {
                 continue;
             }
+            let mut rest = 0usize;
             let mut s = rebuild();
             let mut visited: Vec<u8> = Vec::new();
             let mut yielded: Vec<E3> = Vec::new();
@@ -352,7 +353,13 @@ pub fn probe_removal<K: KeyT, V: ValT>(
                         None => return Err("extract_if: ended before yielding every selected element".into()),
                     }
                 }
-                if cut == extracted_total {
+                if fin == 1 {
+                    // internal iteration (count -> fold) after `cut` external steps
+                    rest = it.count();
+                    if cut + rest != extracted_total {
+                        return Err(format!("extract_if: {cut} next() calls then count() = {rest}, but the predicate selects {extracted_total} elements"));
+                    }
+                } else if cut == extracted_total {
                     if let Some((k, _)) = it.next() {
                         return Err(format!("extract_if: yielded key {} which the predicate did not select (or yielded twice)", k.id()));
                     }
@@ -360,6 +367,9 @@ pub fn probe_removal<K: KeyT, V: ValT>(
                         return Err("extract_if: yielded an item after None".into());
                     }
                 }
+            }
+            if fin == 1 && visited.len() != n {
+                return Err(format!("extract_if: next() x {cut} then count() visited {} of {} elements", visited.len(), n));
             }
             // each element visited at most once
             let mut vs = visited.clone();
@@ -382,8 +392,8 @@ pub fn probe_removal<K: KeyT, V: ValT>(
             }
             // visited & selected elements are removed (and must all have been yielded); everything else stays
             let removed: Vec<u8> = visited.iter().copied().filter(|&id| in_set(mask, id)).collect();
-            if removed.len() != yielded.len() {
-                return Err(format!("extract_if: predicate selected {} visited elements but {} were yielded", removed.len(), yielded.len()));
+            if removed.len() != yielded.len() + rest {
+                return Err(format!("extract_if: predicate selected {} visited elements but {} were yielded", removed.len(), yielded.len() + rest));
             }
             s.model.retain(|e| !removed.contains(&e.0));
             for e in s.model.iter_mut() {
@@ -398,7 +408,7 @@ pub fn probe_removal<K: KeyT, V: ValT>(
         }
     }
     // drain dropped after j items
-    for j in 0..=n {
+    for (j, fin) in (0..=n).flat_map(|j| [(j, 0u8), (j, 1u8)]) {
         let mut s = rebuild();
         let mut got = Vec::new();
         {
@@ -407,6 +417,15 @@ pub fn probe_removal<K: KeyT, V: ValT>(
                 match d.next() {
                     Some((k, v)) => got.push((k.id(), k.tok(), v.tok())),
                     None => return Err("drain(): ended early".into()),
+                }
+            }
+            if fin == 1 {
+                if d.len() != n - j {
+                    return Err(format!("drain(): len() = {} after {j} of {n} items", d.len()));
+                }
+                d.for_each(|(k, v)| got.push((k.id(), k.tok(), v.tok())));
+                if sorted(got.clone()) != full {
+                    return Err(format!("drain(): next() x {j} then for_each yielded {:?}, stored {:?}", sorted(got), full));
                 }
             }
         }
